@@ -151,6 +151,9 @@ def check_c05(res, tier, replay):
                 o, regime = gen_ohlcv(rng, rng.randrange(12, 60), rng.choice(['walk', 'down', 'zigzag']))
                 for _k in range(rng.randrange(1, 4)):
                     o['c'][rng.randrange(len(o['c']))] = rng.choice([0.0, -1.0, -250.0])
+                # … one of them while the wrapped strategy is still warming up (no position can be open there)
+                inner0 = wname.split(':')[1].split('+')[0]
+                o['c'][rng.randrange(0, max(1, min(len(o['c']), strat_idle(inner0, DEFAULT_NS.get(inner0, [])))))] = rng.choice([0.0, -1.0, -250.0])
                 wcases.append((wname, [], [], o, regime + '+nonpositive-close'))
         wl = ['w%d %s' % (i, strat_line(c[0], c[1], c[2], c[3])) for i, c in enumerate(wcases)]
         wg = vlib.run_go(wl)
@@ -319,11 +322,22 @@ def check_c06(res, tier, replay):
                 n = strat_idle(name, ns) + rng.randrange(15, 90)
                 o, regime = gen_ohlcv(rng, n, 'wide' if j % 2 else None)
                 cases.append((name, ns, fs, o, regime))
+            # a long flat opening: indicators whose formula divides by the movement are undefined there, the rule says Hold
+            for j in range(2 if tier == 'quick' else 8):
+                ns, fs = sc['cfg'](rng, 8 if tier == 'quick' else 20)
+                ns, fs = list(ns), list(fs)
+                o, regime = gen_ohlcv(rng, strat_idle(name, ns) + rng.randrange(20, 70), 'flatstart')
+                cases.append((name, ns, fs, o, regime))
             # an up-trend with sharp pull-backs: the regime in which oversold/overbought and trend conditions coincide
-            for j in range(3 if tier == 'quick' else 12):
+            for j in range((12 if sc.get('hist') else 3) if tier == 'quick' else (40 if sc.get('hist') else 12)):
                 ns, fs = sc['cfg'](rng, 40 if j % 2 else 12)
                 ns, fs = list(ns), list(fs)
-                o, regime = gen_ohlcv(rng, strat_idle(name, ns) + rng.randrange(60, 160), 'dips')
+                if sc.get('hist') and name == 'TripleRsi' and j % 3 != 1:
+                    # loose thresholds and window depths other than the default: the run-of-readings condition decides
+                    ns[2] = rng.choice([2, 4, 5, 6])
+                    ns[1] = max(ns[0] + 1, rng.choice([3, 5, 8]))
+                    fs = [rng.choice([80.0, 95.0]), rng.choice([75.0, 90.0]), 99.0]
+                o, regime = gen_ohlcv(rng, strat_idle(name, ns) + rng.randrange(60, 160), rng.choice(['dips', 'walk', 'zigzag']) if sc.get('hist') else 'dips')
                 cases.append((name, ns, fs, o, regime))
     lines, go, model = run_strats(cases)
     mism, comps = strat_correspondence(res, cases, lines, go, model)
@@ -881,8 +895,11 @@ def check_c14(res, tier, replay):
                 o, regime = gen_ohlcv(rng, w + rng.choice([1, 2, 5, 17, 40]), REGIMES[(j * 5 + len(name)) % len(REGIMES)])
                 cases.append((name, ns, fs, o, regime))
         for wname in WRAPPED:
-            for _ in range(2 if tier == 'quick' else 10):
-                o, regime = gen_ohlcv(rng, rng.randrange(12, 80))
+            deco = wname.split(':')[0] in ('NoLoss', 'StopLoss')
+            for _ in range((8 if deco else 2) if tier == 'quick' else (30 if deco else 10)):
+                # decorators only matter where the wrapped strategy would trade at a loss: falling and whipsawing series
+                o, regime = gen_ohlcv(rng, rng.randrange(12, 80) if not deco else rng.randrange(40, 120),
+                                      rng.choice(['down', 'zigzag', 'dips', 'walk', 'wide']) if deco else None)
                 cases.append((wname, [], [], o, regime))
         for _ in range(4 if tier == 'quick' else 20):       # DEMA strategy whose DEMAs use two different EMA periods each
             a, b, c2, d2 = (rng.randrange(1, 8) for _ in range(4))
